@@ -606,31 +606,82 @@ class F:
             return ast.Constant(value=False)
         return terms[0] if len(terms) == 1 else ast.BoolOp(op=ast.Or(), values=terms)
 
+    @staticmethod
+    def _iter_of_map(it: ast.AST):
+        """iteration expression over a mapping -> (mapping expr, 'items' | 'keys', sorted?) or None.
+        Accepts D.items(), sorted(D.items()[, key=..]), D, D.keys(), sorted(D), list(..) around any of them."""
+        is_sorted = False
+        while isinstance(it, ast.Call) and isinstance(it.func, ast.Name) and it.func.id in ("sorted", "list", "tuple") and it.args:
+            is_sorted = is_sorted or it.func.id == "sorted"
+            it = it.args[0]
+        if isinstance(it, ast.Call) and isinstance(it.func, ast.Attribute) and it.func.attr in ("items", "keys") and not it.args:
+            return it.func.value, it.func.attr, is_sorted
+        if isinstance(it, (ast.Name, ast.Attribute)):
+            return it, "keys", is_sorted
+        return None
+
     def dict_filter(self, value: ast.AST):
-        """Recognise `value` as a filtered copy of a mapping: `{k: v for k, v in SRC if COND}` or a name that is built by
-        `D = {}; for k, v in SRC: [conditions] D[k] = v`.  Returns {src, key, val, kept (condition AST), nodes} or None."""
+        """Recognise `value` as a filtered copy of a mapping D, in comprehension or loop form, iterating the items or the
+        keys of D:  {k: v for k, v in D.items() if C} | {k: D[k] for k in sorted(D) if C} | R = {}; for ..: if C: R[k] = v.
+        Returns {map (text of D), src (iteration text), key, val (name standing for D[key]), kept (condition AST, D[key]
+        spelled as val), sorted, nodes} or None."""
         g = self.g
+
+        class Sub(ast.NodeTransformer):
+            def __init__(self, d_txt, k, v):
+                self.d_txt, self.k, self.v = d_txt, k, v
+
+            def visit_Subscript(self, node):
+                if norm(node.value) == self.d_txt and norm(node.slice) == self.k:
+                    return ast.copy_location(ast.Name(id=self.v, ctx=ast.Load()), node)
+                return self.generic_visit(node)
+
+        def shape(target, it):
+            im = self._iter_of_map(it)
+            if im is None:
+                return None
+            d, how, is_sorted = im
+            d_txt = norm(d)
+            if how == "items" and isinstance(target, ast.Tuple) and len(target.elts) == 2 and all(isinstance(x, ast.Name) for x in target.elts):
+                return d_txt, target.elts[0].id, target.elts[1].id, is_sorted, False
+            if how == "keys" and isinstance(target, ast.Name):
+                return d_txt, target.id, "V__", is_sorted, True
+            return None
+
         v = value
         if isinstance(v, ast.Name):
             ev = self.xe(v)
             if isinstance(ev, ast.DictComp):
                 v = ev
-        if isinstance(v, ast.DictComp) and len(v.generators) == 1 and isinstance(v.generators[0].target, ast.Tuple) and len(v.generators[0].target.elts) == 2:
+        if isinstance(v, ast.DictComp) and len(v.generators) == 1:
             gen = v.generators[0]
-            kk, vv = norm(gen.target.elts[0]), norm(gen.target.elts[1])
-            if norm(v.key) != kk or norm(v.value) != vv:
+            sh = shape(gen.target, gen.iter)
+            if sh is None:
                 return None
-            conds = [c for i in gen.ifs for c in M.conjuncts(i)]
+            d_txt, kk, vv, is_sorted, by_key = sh
+            val = Sub(d_txt, kk, vv).visit(copy.deepcopy(v.value)) if by_key else v.value
+            if norm(v.key) != kk or norm(val) != vv:
+                return None
+            conds = [c for i in gen.ifs for c in M.conjuncts(Sub(d_txt, kk, vv).visit(copy.deepcopy(i)) if by_key else i)]
             kept = ast.BoolOp(op=ast.And(), values=conds) if len(conds) > 1 else conds[0] if conds else ast.Constant(value=True)
-            return {"src": self.x(gen.iter), "key": kk, "val": vv, "kept": kept, "nodes": []}
+            return {"map": d_txt, "src": self.x(gen.iter), "key": kk, "val": vv, "kept": kept, "sorted": is_sorted, "nodes": []}
         if isinstance(v, ast.Name):
             for n in g.nodes:
-                if n.kind == "for" and isinstance(n.stmt.target, ast.Tuple) and len(n.stmt.target.elts) == 2:
-                    kk, vv = norm(n.stmt.target.elts[0]), norm(n.stmt.target.elts[1])
-                    sts = [i for i, val, b in self.stores(f"{v.id}[{kk}]") if norm(val) == vv]
-                    others = [i for i, val, b in self.stores(f"{v.id}[__k]") if i not in sts]
-                    if sts and not others:
-                        return {"src": self.x(n.stmt.iter), "key": kk, "val": vv, "kept": self.condition_of((n.idx, "iter"), [n.idx], sts), "nodes": sts}
+                if n.kind != "for":
+                    continue
+                sh = shape(n.stmt.target, n.stmt.iter)
+                if sh is None:
+                    continue
+                d_txt, kk, vv, is_sorted, by_key = sh
+                if d_txt == v.id:
+                    continue
+                sts = [i for i, val, b in self.stores(f"{v.id}[{kk}]") if (norm(g.nodes[i].stmt.value) == f"{d_txt}[{kk}]" if by_key else norm(g.nodes[i].stmt.value) == vv)]
+                others = [i for i, val, b in self.stores(f"{v.id}[__k]") if i not in sts]
+                if sts and not others:
+                    kept = self.condition_of((n.idx, "iter"), [n.idx], sts)
+                    if by_key:
+                        kept = Sub(d_txt, kk, vv).visit(kept)
+                    return {"map": d_txt, "src": self.x(n.stmt.iter), "key": kk, "val": vv, "kept": kept, "sorted": is_sorted, "nodes": sts, "loop": n}
         return None
 
     def list_filter(self, value: ast.AST):
